@@ -25,7 +25,7 @@ package operation
 //@   ensures result1 == nil ==> (ptr(result, "operation.operation").Key != nil) == opHasKey(e) && (opHasKey(e) ==> deref(ptr(result, "operation.operation").Key) == opKey(e)) && ptr(result, "operation.operation").Op == opKind(e) && ptr(result, "operation.operation").Value == opValue(e)
 //@   ensures result1 == nil ==> len(ptr(result, "operation.operation").Docs) == opNDocs(e) && (forall i Int :: 0 <= i && i < opNDocs(e) ==> ptr(result, "operation.operation").Docs[i] != nil && ptr(ptr(result, "operation.operation").Docs[i], "operation.opDoc").Key == opDocKey(e, i) && ptr(ptr(result, "operation.operation").Docs[i], "operation.opDoc").Value == opDocVal(e, i))
 //@   modifies "F:operation.operation.Key", "F:operation.operation.Op", "F:operation.operation.Value", "F:operation.operation.Docs", "F:operation.opDoc.Key", "F:operation.opDoc.Value", "C:Str"
-//@   modifies "C:Slice_Int", "C:Slice_V_cid_Cid", "F:basestore.storeSnapshot.ID", "F:basestore.storeSnapshot.Heads", "F:basestore.storeSnapshot.Size", "F:basestore.storeSnapshot.Type", "C:Slice_Str"
+//@   modifies "F:basestore.storeSnapshot.ID", "F:basestore.storeSnapshot.Heads", "F:basestore.storeSnapshot.Size", "F:basestore.storeSnapshot.Type"
 //@   modifies "F:operation.operation.Entry"
 
 // GetDocs returns the batch members in order, each the *opDoc stored in the operation.
